@@ -29,6 +29,9 @@ type C07Case struct {
 	Query   spsim.AttrQuery `json:"query"`
 	Soap    string          `json:"soap_prefix"`
 	CData   bool            `json:"issuer_as_cdata,omitempty"`
+	// Again: the very same request was presented that many times before (a reload of the redirect URL, a resubmitted form);
+	// a conformant request stays one while its validity window is open.
+	Again int `json:"presented_before,omitempty"`
 }
 
 func genC07Case(t *rapid.T) C07Case {
@@ -113,6 +116,15 @@ func genC07Case(t *rapid.T) C07Case {
 	switch c.Kind {
 	case "authn":
 		s.Req = genValidAuthn(t, spec, s.SP, s.Host)
+		switch rapid.IntRange(0, 9).Draw(t, "idhistory") {
+		case 0:
+			c.Again = rapid.IntRange(1, 2).Draw(t, "again")
+		case 1:
+			if s.Hist == nil && len(spec.SPs) > 1 {
+				// message IDs are chosen by each service provider: another provider used the same ID a moment ago
+				s.Hist = &History{SP: s.SP, Warmups: []string{"sso"}, ReuseID: s.Req.ID, WarmupByOther: true}
+			}
+		}
 		s.Req.ProtocolBinding = rapid.SampledFrom([]string{A, world.BindPost, world.BindRedirect}).Draw(t, "protocolbinding")
 		if rapid.IntRange(0, 3).Draw(t, "ownacs") == 0 {
 			a := pick(t, "acsentry", sp.ACS)
@@ -243,6 +255,10 @@ func c07Accepted(c C07Case) (bool, string, obs.HTTPReq) {
 	hr, err := c07Render(c, now)
 	if err != nil {
 		panic("harness: " + err.Error())
+	}
+	for i := 0; i < c.Again; i++ {
+		obs.Do(w.Handler, hr)
+		w.Store.ResetLog()
 	}
 	rep := obs.Do(w.Handler, hr)
 	if rep.Panic != "" {
